@@ -8,8 +8,16 @@ RULE = ("random histories with MaxValidators 2 over 5 validators: ties, zero-pow
         "ranking/index consistency; any FinalizeBlock failure is a `halt` event no action explains")
 
 
+def bigkey(ev):
+    if ev.get("ev") == "block" and "imbalance" in ev:
+        return "large-scale/imbalance=%s/signs=%s,%s,%s,%s/cometOk=%s" % (ev.get("imbalance") != 0, ev.get("goatSign"), ev.get("gasSign"), ev.get("remainSign"), ev.get("accruedSign"), ev.get("cometOk"))
+    return lc.key(ev)
+
+
 def run(tier, seed, work):
     quick = tier == "quick"
     mc = [("MC_Locking.tla", "MC_Locking_base.cfg" if quick else "MC_Locking_C11_thorough.cfg")]
-    return verif.run_stateful_check("C13", tier, seed, work, mc_list=mc, groups=lc.groups("C13", seed + 2, quick), key_fn=lc.key,
+    big = [("c13_big_%d" % j, ["rewardbig", "-n", 4 if quick else 30, "-depth", 40, "-seed", seed * 1000 + 500 + j]) for j in range(4)]
+    groups = lc.groups("C13", seed + 2, quick) + [("Trace_RewardBig.tla", "Trace_RewardBig_C13.cfg", big)]
+    return verif.run_stateful_check("C13", tier, seed, work, mc_list=mc, groups=groups, key_fn=bigkey,
                                     level="model_checking", assumptions=lc.COMMON_ASSUME, rule=RULE)
